@@ -188,10 +188,12 @@ def run(ctx):
                 cfg["auto_vacuum"] = [1, 2, 0][(i // 4) % 3]     # FULL <-> INCREMENTAL switches inside the log
             h = H.make_history(sc.path(f"h{i}"), cfg, r, kind=kind)
             n0 = len(ctx.oracle_failures)
-            impl, vh, exc = C.compare_history_dump(ctx, h.db, h.wal, "vh.dump", with_trees=False)
+            # (every second history with the versions kept in memory: the reported header must not depend on it)
+            impl, vh, exc = C.compare_history_dump(ctx, h.db, h.wal, "vh.dump", mem=(i % 2 == 1), with_trees=False)
+            ctx.branch(f"history:{h.kind}:mem{i % 2}")
             if vh is None:
                 ctx.oracle_fail("history-rejected", f"a WAL history written by SQLite is rejected: {impl}",
-                                {"kind": h.kind, "cfg": cfg, "events": h.events}, impl, "accepted")
+                                {"kind": h.kind, "cfg": cfg, "events": h.events, "store_in_memory": i % 2 == 1}, impl, "accepted")
                 C.keep_failing_files(ctx, n0, h.db, h.wal)
                 continue
             if len(vh.versions) != len(h.snapshots):
